@@ -63,6 +63,21 @@ def cases(tier, seed):
         for a in REPS[k]:
             add('-(%s)' % a, None, ('neg', k))
             add('-%s' % a if not a.startswith('-') else '- %s' % a, None, ('neg', k))
+    # chains of unary minus (1..4 deep, with and without blanks and parentheses), on literals and on input members:
+    # every level is a negation of its own (number check at every level, sign flips, -0)
+    for k in kinds:
+        for a in REPS[k]:
+            if a.startswith('-'):
+                continue
+            for pre in ['--', '- -', '---', '- - -', '-(-', '-(-(-', '----', '- -(-']:
+                closing = ')' * pre.count('(')
+                add('%s%s%s' % (pre, a, closing), None, ('neg-chain', k))
+        for v in DOCVALS.get(k, []):
+            for pre in ['--x', '- -x', '---x', '-(-x)', '- - - x']:
+                add(pre, {'x': v}, ('neg-chain-doc', k))
+    for pre in ['--', '- -', '---']:
+        add(pre + 'nothing', {}, ('neg-chain', 'missing')); add(pre + 'x', {}, ('neg-chain', 'missing'))
+        add('1 %s 2' % pre, None, ('neg-chain', 'binary')); add('"a" & %s1' % pre, None, ('neg-chain', 'binary'))
     # ranges
     bounds = ['0', '1', '3', '-2', '1.5', '"a"', 'true', 'nothing', '[1]', '5', '2', '10', '1e3', '-0',
               '1e19', '2e19', '-1e19', '1e300', '-1e300', '9223372036854775807', '9223372036854775808', '-9223372036854775808', '10001000', '4294967296', '2147483648', '1e15', '9007199254740993']
@@ -101,7 +116,7 @@ def cases(tier, seed):
 
 def run(tier, seed, replay=None):
     ck = Check('C03', tier, seed, '', 'operator x operand-kind x operand-kind over literal and input-member operands, '
-               'unary minus, ranges incl. limits, lazy conditionals, random nesting <= 4; distinct = distinct (expression, input); '
+               'unary minus (single and chains of 2..4 on every operand kind), number x number over 62 edge operands for every arithmetic/comparison operator, ranges incl. limits, lazy conditionals, random nesting <= 4; distinct = distinct (expression, input); '
                'non-trivial = compiles and the model has a verdict')
     if not ck.build():
         return ck.finish()
